@@ -185,7 +185,7 @@ def generate(rep, cls, tier, r, R):
         small = [x for x in exhaustive if len(x["prog"]) <= 3]
         big = [x for x in exhaustive if len(x["prog"]) > 3]
         r.shuffle(big)
-        quota = {"68k": 1100, "abs": 350, "86": 550, "self68k": 700, "selfabs": 250, "self86": 500}[cls]
+        quota = {"68k": 1100, "abs": 350, "86": 550, "self68k": 400, "selfabs": 150, "self86": 300}[cls]
         if cls in SELFCLASSES:      # all of <= 2 items (label + padded self-reference needs two), sampled 3-item ones
             small = [x for x in exhaustive if len(x["prog"]) <= 2]
             big = [x for x in exhaustive if len(x["prog"]) > 2]
@@ -237,14 +237,16 @@ def observe_verdicts(cls, obs):
     return out, r
 
 
-def replay_class(rep, bld, cls, cases, tier):
+def replay_class(rep, bld, cls, cases, tier, more=()):
+    """cases of target class cls, plus `more` = (class name, cases) lists judged with the same PassLoop_Obs config"""
     todo = []
-    for ci, case in enumerate(cases):
-        for dia in passloop.CLASSES[cls]:
-            if not passloop.supports(dia, case["prog"]):
-                continue
-            src, choice = _jobs_for(case, dia, ci)
-            todo.append((case, dia, src, choice, []))
+    for (c, cs) in ((cls, cases),) + tuple(more):
+        for ci, case in enumerate(cs):
+            for dia in passloop.CLASSES[c]:
+                if not passloop.supports(dia, case["prog"]):
+                    continue
+                src, choice = _jobs_for(case, dia, "%s%d" % (c, ci))
+                todo.append((case, dia, src, choice, []))
     with Phase("replay %s: %d programs x 2 runs" % (cls, len(todo))):
         results = _run_cases(bld, todo)
     obs = []
@@ -445,7 +447,7 @@ def trace_generated(rep, bld, cls_todo, tier):
     for cls, todo in cls_todo.items():
         idx = list(range(len(todo)))
         r.shuffle(idx)
-        sample += [(cls, todo[i]) for i in idx[:(250 if tier == "quick" else 3000)]]
+        sample += [(cls, todo[i]) for i in idx[:(400 if tier == "quick" else 4000)]]
     jobs = [{"sources": {"a.asm": src}, "opts": ["-q"], "events": "file,sym,ref",
              "env": {"ASL_VERIF_MAX_PASSES": str(CAP), "ASL_VERIF_EXTRA_PASSES": "1"}, "timeout": 30}
             for (cls, (case, dia, src, choice, opts)) in sample]
@@ -607,12 +609,13 @@ def evaluate(rep, bld, R, tier, parts=("G", "Y", "VG", "VC")):
     r = rng("c01")
     cls_todo = {}
     cases86 = []
-    for cls in CLASSES + SELFCLASSES:
+    for cls in CLASSES:
         cases = generate(rep, cls, tier, r, R)
+        selfcases = generate(rep, "self" + cls, tier, r, R)
         if cls == "86":
             cases86 = cases
         if "G" in parts:
-            todo, results = replay_class(rep, bld, cls, cases, tier)
+            todo, results = replay_class(rep, bld, cls, cases, tier, more=(("self" + cls, selfcases),))
             cls_todo[cls] = todo
     if "Y" in parts:
         y_option_part(rep, bld, cases86, tier)
